@@ -192,7 +192,7 @@ Proof. intros. destruct l; reflexivity. Qed.
 
 Lemma rt_op_nokey : forall wc t o, R.op_key o = [] -> rt_op wc t o = t.
 Proof.
-  intros wc t o E. unfold rt_op, R.step. rewrite E, ilog2_nil. destruct o as [| | k [|] c | |]; reflexivity.
+  intros wc t o E. unfold rt_op, R.step, R.step_gen. rewrite E, ilog2_nil. destruct o as [| | k [|] c | | |]; reflexivity.
 Qed.
 
 Lemma rt_op_inv : forall wc t o p,
@@ -244,7 +244,7 @@ Qed.
 
 Lemma rt_filter1_table : forall wc t p, fst (rt_filter1 wc t p) = rt_op wc t (R.OEntry (pkey wc p)).
 Proof.
-  intros wc t p. unfold rt_filter1, rt_op, R.step. cbn [R.op_key].
+  intros wc t p. unfold rt_filter1, rt_op, R.step, R.step_gen. cbn [R.op_key].
   destruct (R.ilog2 (R.kxor (lkey wc) (pkey wc p))); reflexivity.
 Qed.
 
